@@ -331,6 +331,11 @@ func (e *Env) ident(name string) (Value, error) {
 		return nil, fmt.Errorf("metavariable %s is not bound here (no matching call dominates this point)", name)
 	}
 	if v, ok := e.st.ghost[name]; ok {
+		if e.callee {
+			// ghosts belong to one activation: a callee's contract clause that names a ghost says
+			// nothing about the caller's ghost of the same name (the clause is not usable here)
+			return nil, fmt.Errorf("ghost %s of the callee's contract is not visible at a call site", name)
+		}
 		return v, nil
 	}
 	switch name {
@@ -1058,6 +1063,26 @@ func (e *Env) call(ex ECall) (Value, error) {
 				val = "false"
 			}
 			return ArrayV{T: Store(set.T, flatten(xv)[0], val), Sort: set.Sort, Key: set.Key}, nil
+		case "substr":
+			// substr(s, lo, hi): the Go string slice s[lo:hi] (the same uninterpreted function the
+			// executor uses for a slice expression on a string)
+			if len(ex.Args) != 3 {
+				return nil, fmt.Errorf("substr(s, lo, hi)")
+			}
+			var ts []Term
+			for _, a := range ex.Args {
+				v, err := e.eval(a)
+				if err != nil {
+					return nil, err
+				}
+				sc, ok := v.(Scalar)
+				if !ok {
+					return nil, fmt.Errorf("substr of non-scalar")
+				}
+				ts = append(ts, sc.T)
+			}
+			f := e.x.smt.fun("str.sub", []string{SStr, SInt, SInt}, SStr)
+			return Scalar{T: App(f, ts[0], ts[1], ts[2]), Sort: SStr, Typ: types.Typ[types.String]}, nil
 		case "callerfresh":
 			// callerfresh(x): the object was allocated during this activation (by the function
 			// under proof or by a callee on its behalf)
@@ -1066,6 +1091,10 @@ func (e *Env) call(ex ECall) (Value, error) {
 				return nil, err
 			}
 			var r Term
+			if sv, ok := v.(SliceV); ok {
+				// a slice: empty, or its backing array was allocated during this activation
+				return boolV("(or (= " + sv.Len + " 0) (< (rootid " + sv.Arr + ") 0))"), nil
+			}
 			if mv, ok := v.(MapV); ok {
 				r = mv.Ref
 			} else if rr, ok := objRef(v); ok {
